@@ -11,6 +11,10 @@ pub mod c06;
 pub mod c07;
 pub mod c08;
 pub mod c08_fn;
+pub mod c14;
+pub mod c14_fn;
+pub mod c14_ref;
+pub mod c14_world;
 pub mod c15;
 pub mod c15_world;
 pub mod c16;
@@ -36,6 +40,7 @@ pub fn run(id: &str, ctx: &Ctx) -> i32 {
         "C05" => finish(ctx, c05::run(ctx), Some(&c05::replay)),
         "C06" => finish(ctx, c06::run(ctx), Some(&c06::replay)),
         "C08" => finish(ctx, c08::run(ctx), Some(&c08::replay)),
+        "C14" => finish(ctx, c14::run(ctx), Some(&c14::replay)),
         "C15" => finish(ctx, c15::run(ctx), Some(&c15::replay)),
         "C16" => finish(ctx, c16::run(ctx), Some(&c16::replay)),
         "C18" => finish(ctx, c18::run(ctx), Some(&c18::replay)),
@@ -61,6 +66,7 @@ pub fn replay(id: &str, case: &Value) -> Result<(), String> {
         "C05" => c05::replay(case),
         "C06" => c06::replay(case),
         "C08" => c08::replay(case),
+        "C14" => c14::replay(case),
         "C15" => c15::replay(case),
         "C16" => c16::replay(case),
         "C18" => c18::replay(case),
